@@ -290,6 +290,7 @@ void c13_case(Tape& t, Ctx& ctx) {
       for (int k = 0; k < nc; ++k) {
         if (!same_val(C(i * nc + k, d), C1(i * nc + k, 0))) bw = false;
         ld e = fabsl((ld)C(i * nc + k, d) - (ld)C1(i * nc + k, 0)) * RefSpline::ipow(c.T[i], k);
+        if (sc > 0) ctx.maxi("coef_vs_1d_" + std::string(SplineOf<D, S>::name()), (double)(e / sc));
         VCHECK(ctx, e <= tau_fwd(S) * sc, "coefficients-vs-1d", who << ": coefficient (segment " << i << ", power " << k << ") of coordinate " << d << " is " << g17(C(i * nc + k, d)) << " but the one-dimensional spline of that coordinate gives " << g17(C1(i * nc + k, 0)));
       }
     }
@@ -301,6 +302,7 @@ void c13_case(Tape& t, Ctx& ctx) {
       double vD = sp.getTrajectory().evaluate(tq, k)(d), v1 = s1.getTrajectory().evaluate(tq, k)(0);
       int sg = 0; const auto& bk = sp.getTrajectory().getBreakpoints(); while (sg + 1 < N && tq >= bk[sg + 1]) ++sg;
       ld sc = seg_abs_scale(C1, sg, nc, 0, (ld)(tq - bk[sg]), k) + std::max(Md, c.data_mag(d, S)) / RefSpline::ipow(c.T[sg], k);
+      if (sc > 0) ctx.maxi("eval_vs_1d_" + std::string(SplineOf<D, S>::name()), (double)(fabsl((ld)vD - (ld)v1) / sc));
       VCHECK(ctx, fabsl((ld)vD - (ld)v1) <= tau_fwd(S) * sc, "evaluation-vs-1d", who << ": evaluate(t=" << g17(tq) << ", k=" << k << ") coordinate " << d << " = " << g17(vD) << " vs one-dimensional spline " << g17(v1));
     }
     // propagated gradients (scalar run with zero incoming time gradient)
@@ -315,6 +317,7 @@ void c13_case(Tape& t, Ctx& ctx) {
       for (int r = 0; r < rows; ++r) sc = std::max(sc, std::max(fabsl(A(r, d)), fabsl(B(r, 0))));
       for (int r = 0; r < rows; ++r) {
         ld e = fabsl(A(r, d) - B(r, 0));
+        if (sc > 0 && e > tau_zero(S) * nat) ctx.maxi("grad_vs_1d_" + std::string(SplineOf<D, S>::name()), (double)((e - tau_zero(S) * nat) / sc));
         if (!(e <= TAU_ADJ * sc + tau_zero(S) * nat + 1e-280L)) {
           VFAILNR(ctx, "gradient-vs-1d", who << ": " << what2 << " " << kind << "[" << r << "] coordinate " << d << " is " << lg(A(r, d)) << " but the one-dimensional spline of that coordinate gives " << lg(B(r, 0)));
           return false;
@@ -588,6 +591,7 @@ void c14_case(Tape& t, Ctx& ctx) {
             double sgn = (m & 1) ? -1.0 : 1.0;
             for (int d = 0; d < D; ++d) {
               ld sc = seg_abs_scale(C, i, nc, d, (ld)c.T[i], m) + std::max((ld)c.M, c.data_mag(d, S)) / RefSpline::ipow(c.T[i], m);
+              if (sc > 0) ctx.maxi("reversal_eval_" + std::string(SplineOf<D, S>::name()), (double)(fabsl((ld)vr(d) - sgn * (ld)vo(d)) / sc));
               VCHECK(ctx, fabsl((ld)vr(d) - sgn * (ld)vo(d)) <= tr * sc, "reversal-evaluation",
                      who << ": derivative " << m << " of the reversed spline on segment " << j << " at u=" << g17(u) << " coordinate " << d << " is " << g17(vr(d)) << " but (-1)^m times the original at the mirrored time is " << g17(sgn * vo(d)) << " (durations " << c.dur_shape << " ratio " << g6(c.ratio) << ")");
             }
@@ -607,10 +611,18 @@ void c14_case(Tape& t, Ctx& ctx) {
       MatL pr, br; VecL trv;
       flatten<D, S>(Gb, N, pr, br, trv);
       ld st = 0; for (int i = 0; i < N; ++i) st = std::max(st, fabsl(tms(i)));
+      for (int i = 0; i < N; ++i) {
+        ld e_ = fabsl(trv(i) - tms(N - 1 - i));
+        if (st > 0 && e_ > tau_zero(S) * natT) ctx.maxi("reversal_grad_times_" + std::string(SplineOf<D, S>::name()), (double)((e_ - tau_zero(S) * natT) / st));
+      }
       for (int i = 0; i < N; ++i)
         VCHECK(ctx, fabsl(trv(i) - tms(N - 1 - i)) <= TAU_ADJ * st * 10 + tau_zero(S) * natT + 1e-280L, "reversal-gradients", who << " via " << vname << ": duration gradient " << i << " of the reversed problem is " << lg(trv(i)) << ", mirrored original " << lg(tms(N - 1 - i)));
       for (int d = 0; d < D; ++d) {
         ld sp_ = 0; for (int r = 0; r <= N; ++r) sp_ = std::max(sp_, fabsl(pts(r, d)));
+        for (int r = 0; r <= N; ++r) {
+          ld e_ = fabsl(pr(r, d) - pts(N - r, d));
+          if (sp_ > 0 && e_ > tau_zero(S) * natP[d]) ctx.maxi("reversal_grad_points_" + std::string(SplineOf<D, S>::name()), (double)((e_ - tau_zero(S) * natP[d]) / sp_));
+        }
         for (int r = 0; r <= N; ++r)
           VCHECK(ctx, fabsl(pr(r, d) - pts(N - r, d)) <= TAU_ADJ * sp_ * 10 + tau_zero(S) * natP[d] + 1e-280L, "reversal-gradients", who << " via " << vname << ": point gradient " << r << " coordinate " << d << " of the reversed problem is " << lg(pr(r, d)) << ", mirrored original " << lg(pts(N - r, d)));
         for (int m = 0; m < 3; ++m) {
